@@ -1,6 +1,6 @@
 (* C14 property theorems: statements only, each closed by `exact`.
    Model: coq/C14/Model.v.  A schedule is a list of scheduling choices ([F w]: worker w finishes its next job,
-   [P]: one poll of the main loop; [T w]: worker w takes the next job of run_jobs, [JP]: one poll); every
+   [P]: one poll of the main loop; [T w]: worker w takes the next job of run_jobs, [JP]: one poll, [V]: the queued jobs become visible); every
    theorem quantifies over ALL schedules, batch contents, process counts (and sequences of batches). *)
 From Coq Require Import List Bool Arith Permutation.
 From PAFC14 Require Import Model Lib Proofs1 Proofs2 Proofs3 Proofs4 Witness.
@@ -75,26 +75,41 @@ Proof. exact @mapfix_batches. Qed.
 (* ---- Process.run_jobs ---- *)
 
 (* FULL: every schedule: what has been delivered is a sub-multiset of the jobs (nothing invented or doubled) *)
-Theorem C14_jobs_conservation : forall (R E : Type) nw (jobs : list (nat * outcome R E)) sched,
-  exists rest, Permutation jobs (jtaken (jrun sched (jstart nw jobs)) ++ rest).
+Theorem C14_jobs_conservation : forall (R E : Type) nw (jobs : list (nat * outcome R E)) fixed sched,
+  exists rest, Permutation jobs (jtaken (jrun fixed sched (jstart nw jobs)) ++ rest).
 Proof. exact @jobs_conservation. Qed.
 
 (* FULL: if no job fails a finished call has delivered every result exactly once and raises nothing *)
-Theorem C14_jobs_complete : forall (R E : Type) nw (jobs : list (nat * outcome R E)) sched s,
-  s = jrun sched (jstart nw jobs) -> jdone s = true -> (forall it, In it jobs -> is_exc it = false) ->
+Theorem C14_jobs_complete : forall (R E : Type) nw (jobs : list (nat * outcome R E)) fixed sched s,
+  s = jrun fixed sched (jstart nw jobs) -> jdone s = true -> (forall it, In it jobs -> is_exc it = false) ->
   Permutation (jtaken s) jobs /\ jexc s = None.
 Proof. exact @jobs_complete. Qed.
 
 (* FULL: if a job fails a finished call raises, with an exception of one of its own failing jobs *)
-Theorem C14_jobs_exception_reported : forall (R E : Type) nw (jobs : list (nat * outcome R E)) sched s,
-  s = jrun sched (jstart nw jobs) -> jdone s = true -> (exists it, In it jobs /\ is_exc it = true) ->
+Theorem C14_jobs_exception_reported : forall (R E : Type) nw (jobs : list (nat * outcome R E)) fixed sched s,
+  s = jrun fixed sched (jstart nw jobs) -> jdone s = true -> (exists it, In it jobs /\ is_exc it = true) ->
   exists it, jexc s = Some it /\ In it jobs /\ is_exc it = true.
 Proof. exact @jobs_exception_reported. Qed.
 
 (* what a caller observes (it stops looking when the generator ends) is a state of the full system *)
-Theorem C14_jobs_observation : forall (R E : Type) sched (s : jstate R E),
-  exists sched', jrun_obs sched s = jrun sched' s.
+Theorem C14_jobs_observation : forall (R E : Type) fixed sched (s : jstate R E),
+  exists sched', jrun_obs fixed sched s = jrun fixed sched' s.
 Proof. exact @jrun_obs_prefix. Qed.
+
+(* REFUTED (second finding): a call of run_jobs need not end -- every worker looks at the shared queue before
+   the parent's feeder thread has flushed the jobs ([T 0] before [V]) and exits; the main loop polls forever and
+   the job is never evaluated *)
+Theorem C14_jobs_termination_refuted :
+  exists (nw : nat) (outs : list (outcome nat nat)) (sched : list jaction),
+    forall k, let s := jrun false (sched ++ repeat JP k) (jstart nw (enum outs)) in
+              jdone s = false /\ jtaken s = [] /\ jq s = enum outs.
+Proof. exact jobs_termination_refuted. Qed.
+
+(* repaired worker loop (proposed_fixes/C14-run-jobs-sentinel.diff): in every reachable state with jobs still
+   queued every worker is still there *)
+Theorem C14_jobsfix_workers_stay : forall (R E : Type) nw (jobs : list (nat * outcome R E)) sched,
+  workers_stay (jrun true sched (jstart nw jobs)).
+Proof. exact @workers_stay_run. Qed.
 
 (* ---- callers keyed by job number: ResultBuilder.add / Sensitivity.run sorted(results) ---- *)
 Theorem C14_keyed_summaries : forall (R E : Type) (outs : list (outcome R E)) (l : list (nat * outcome R E)),
@@ -106,8 +121,8 @@ Theorem C14_keyed_sorted : forall (R E : Type) (outs : list (outcome R E)) (l : 
 Proof. exact @keyed_sorted. Qed.
 
 (* FULL: run_jobs + keyed callers: every schedule gives the serial results in job order *)
-Theorem C14_jobs_keyed_serial : forall (R E : Type) nw (outs : list (outcome R E)) sched s,
-  s = jrun sched (jstart nw (enum outs)) -> jdone s = true -> (forall e, ~ In (Exc e) outs) ->
+Theorem C14_jobs_keyed_serial : forall (R E : Type) nw (outs : list (outcome R E)) fixed sched s,
+  s = jrun fixed sched (jstart nw (enum outs)) -> jdone s = true -> (forall e, ~ In (Exc e) outs) ->
   summaries (length outs) (good (jtaken s)) = map Some outs /\ sorted_results (good (jtaken s)) = enum outs.
 Proof. exact @jobs_keyed_serial. Qed.
 
@@ -133,4 +148,5 @@ Print Assumptions C14_map_batches_no_residue.
 Print Assumptions C14_map_order_refuted.
 Print Assumptions C14_mapfix_order.
 Print Assumptions C14_jobs_keyed_serial.
+Print Assumptions C14_jobs_termination_refuted.
 Print Assumptions C14_init_serial_partial.
